@@ -301,6 +301,7 @@ impl StakeScen {
         // wide: only the 3 most recent recorded heights
         let mut hs = if self.wide { self.heights[self.heights.len().saturating_sub(3)..].to_vec() } else { self.heights.clone() };
         hs.push(START_HEIGHT - 1);
+        hs.push(0); // height 0 is a height like any other, not a synonym of "latest"
         hs.push(cur);
         hs.push(cur + 1);
         hs.sort();
@@ -483,7 +484,7 @@ impl StakeScen {
 
     fn gen_addr(&self, rng: &mut Rng) -> String {
         if rng.chance(1, 25) {
-            format!("-{INVALID_ADDR}")
+            format!("-{}", invalid_addr(rng, &self.pool))
         } else {
             format!("+{}", rng.pick(&self.pool))
         }
@@ -529,7 +530,7 @@ impl StakeScen {
         };
         let admin = match rng.below(20) {
             0 | 1 => "-".to_string(),
-            2 => format!("-{INVALID_ADDR}"),
+            2 => format!("-{}", invalid_addr(rng, &self.pool)),
             _ => format!("+{}", rng.pick(&self.pool)),
         };
         format!("inst denom={denom} tpw={tpw} min_bond={min_bond} unbond={unbond} admin={admin}")
@@ -614,7 +615,7 @@ impl StakeScen {
                 0 | 1 => "-".to_string(),
                 2 => format!("+{}", rng.pick(&self.pool)),
                 3 => "-cosmwasm1m".to_string(),
-                4 if rng.chance(1, 2) => format!("-{INVALID_ADDR}"),
+                4 if rng.chance(1, 2) => format!("-{}", invalid_addr(rng, &self.pool)),
                 _ if !members.is_empty() => format!("+{}", rng.pick(&members)),
                 _ => "-".to_string(),
             };
@@ -727,7 +728,7 @@ impl Scenario for StakeScen {
                 0 => {
                     let after = match rng.below(5) {
                         0 | 1 => "-".to_string(),
-                        2 => format!("-{INVALID_ADDR}"),
+                        2 => format!("-{}", invalid_addr(rng, &self.pool)),
                         _ => format!("+{}", rng.pick(&self.pool)),
                     };
                     format!("query list_members after={after} limit={lim}")
